@@ -5,6 +5,7 @@ import (
 	"encoding/json"
 	"fmt"
 	"os"
+	"runtime"
 	"sync/atomic"
 	"testing"
 	"time"
@@ -149,7 +150,7 @@ func TestWorker(t *testing.T) {
 		job.Recheck = 100
 	}
 	if job.MaxLeaks == 0 {
-		job.MaxLeaks = 300
+		job.MaxLeaks = 150
 	}
 	var sigs *os.File
 	if job.SigsOut != "" {
@@ -171,6 +172,15 @@ func TestWorker(t *testing.T) {
 		}
 		if res.Stats.LeakedSims >= job.MaxLeaks {
 			break // respawn to shed stranded goroutines
+		}
+		if res.Stats.Runs%64 == 63 {
+			// stranded goroutines of deadlocked simulations pin their blocks:
+			// respawn before the process grows large
+			var ms runtime.MemStats
+			runtime.ReadMemStats(&ms)
+			if ms.HeapInuse > 600<<20 {
+				break
+			}
 		}
 		tape := NewTape(job.Seed, job.Property, run)
 		c := prop.Gen(tape, job.Tier, run)
